@@ -4,7 +4,7 @@ import ast
 import struct
 
 from ..report import rule
-from .. import norm, cfg as cfgmod, guards
+from .. import pm, norm, cfg as cfgmod, guards
 from ..model import AnalysisError
 from .common import calls_of, find_calls, returns_of, is_abstract_body, bind_args
 
@@ -58,50 +58,69 @@ def c10_r1(ctx):
     if wtuple is None:
         raise AnalysisError("block info tuple not found in _write_block")
     wroles = [_role_w(norm.deep_canon(e, wb.node)) for e in wtuple.elts]
-    # reader unpacking
+    # reader unpacking: the tuple assigned from the value read_pickle() returned
+    G = pm.Alpha(gt)
     rroles = None
+    unpack = None
     for st in ast.walk(gt.node):
-        if isinstance(st, ast.Assign) and isinstance(st.targets[0], ast.Tuple) and norm.canon(st.value) == "info":
-            rroles = [_role_r(norm.canon(e)) for e in st.targets[0].elts]
-    if rroles is None:
+        if isinstance(st, ast.Assign) and isinstance(st.targets[0], ast.Tuple) and len(st.targets[0].elts) >= 5 and \
+                "read_pickle()" in norm.deep_canon(st.value, gt.node):
+            unpack = st.targets[0]
+    if unpack is None:
         raise AnalysisError("info tuple unpacking not found in W3LeafMatcher._goto")
+    # a local in the unpacked tuple gets its role from the attribute it is decoded into
+    b2l = {}
+    for st in ast.walk(gt.node):
+        if isinstance(st, ast.Assign) and isinstance(st.value, ast.Call) and norm.call_name(st.value) == "byte_to_length" and st.value.args:
+            b2l[norm.canon(st.value.args[0])] = norm.canon(st.targets[0])
+    rroles = []
+    for e in unpack.elts:
+        t = norm.canon(e)
+        rroles.append(_role_r(b2l.get(t, t)))
     ctx.ob("W3PostingsWriter._write_block <-> W3LeafMatcher._goto", wroles == rroles and not any(r.startswith("?") for r in wroles),
            "block info fields agree in number, order and meaning", detail="writer %s ; reader %s" % (wroles, rroles), loc=wb.loc)
     # byte_to_length applied to exactly the fields that went through length_to_byte
-    b2l = {}
-    for st in ast.walk(gt.node):
-        if isinstance(st, ast.Assign) and isinstance(st.value, ast.Call) and norm.call_name(st.value) == "byte_to_length":
-            b2l[norm.canon(st.targets[0])] = norm.canon(st.value.args[0])
-    ctx.ob(gt, b2l == {"self._minlength": "mnlen", "self._maxlength": "mxlen"},
-           "min/max length bytes are decoded with byte_to_length into _minlength/_maxlength", detail=str(b2l))
+    locs = [norm.canon(e) for e in unpack.elts if isinstance(e, ast.Name)]
+    ctx.ob(gt, sorted(b2l.values()) == ["self._maxlength", "self._minlength"] and sorted(b2l) == sorted(locs) and len(locs) == 2,
+           "min/max length bytes are decoded with byte_to_length into _minlength/_maxlength", detail=str(sorted(b2l.values())))
     # last-block marker
-    w_neg = any(isinstance(st, ast.If) and norm.canon(st.test) == "last" and
-                any("blocklength" in norm.stmt_text(x) and ("-1" in norm.stmt_text(x)) for x in st.body)
-                for st in ast.walk(wb.node))
+    WA = pm.Alpha(wb)
+    wsts = pm.stmts_of(wb.node)
+    wi = [c for c in norm.calls_in(wb.node) if norm.call_name(c) == "write_int" and c.args and isinstance(c.args[0], ast.Name)]
+    if len(wi) == 1:
+        WA.eq(wi[0].args[0], "blocklength")
+    w_neg = any(isinstance(st, ast.If) and norm.canon(st.test) == "last" and len(st.body) == 1 and not st.orelse and
+                (WA.eq(st.body[0], "blocklength *= -1") or WA.eq(st.body[0], "blocklength = -blocklength")) for st in wsts)
     r_neg = False
-    for st in ast.walk(gt.node):
-        if isinstance(st, ast.If) and norm.canon(st.test) == "(length < 0)":
-            body = " ; ".join(norm.stmt_text(x) for x in st.body)
-            r_neg = "self._lastblock = True" in body and ("length *= -1" in body or "length = -length" in body)
+    gsts = pm.stmts_of(gt.node)
+    G.find(gsts, "length = postfile.read_int()")
+    for st in gsts:
+        if isinstance(st, ast.If) and G.eq(st.test, "length < 0") and not st.orelse:
+            r_neg = G.has(st.body, "self._lastblock = True") and (G.has(st.body, "length *= -1") or G.has(st.body, "length = -length"))
     ctx.ob("W3PostingsWriter._write_block <-> W3LeafMatcher._goto", w_neg and r_neg,
            "last block: writer negates the block length iff `last`, reader sets _lastblock iff length < 0 and re-negates",
            loc=wb.loc)
     # write order: length, info, data  <->  read_int, read_pickle, then data at tell()
-    worder = [norm.canon(c) for c in norm.calls_in(wb.node) if norm.canon(norm.receiver(c) or ast.Name(id=""), norm.aliases(wb.node)) == "self._postfile"
+    wcalls = [c for c in norm.calls_in(wb.node) if norm.canon(norm.receiver(c) or ast.Name(id=""), norm.aliases(wb.node)) == "self._postfile"
               and norm.call_name(c).startswith("write") and "MAGIC" not in norm.canon(c)]
-    ctx.ob(wb, [w.split("(")[0].split(".")[-1] + "(" + w.split("(", 1)[1] for w in worder] ==
-           ["write_int(blocklength)", "write(infobytes)", "write(databytes)"],
-           "block is written as length, info pickle, data", detail=str(worder))
+    info_ok = any(WA.eq(st, "infobytes = dumps(ANY, 2)") for st in wsts
+                  if isinstance(st, ast.Assign) and isinstance(st.value, ast.Call) and st.value.args and st.value.args[0] is wtuple)
+    ok = len(wcalls) == 3 and info_ok and WA.has(wsts, "blocklength = len(infobytes) + len(databytes)") and \
+        WA.eq(wcalls[0], "self._postfile.write_int(blocklength)", al=True) and WA.eq(wcalls[1], "self._postfile.write(infobytes)", al=True) and \
+        WA.eq(wcalls[2], "self._postfile.write(databytes)", al=True)
+    ctx.ob(wb, ok, "block is written as length, info pickle, data", detail=str([WA.text(c) for c in wcalls]))
     rorder = [norm.call_name(c) for c in norm.calls_in(gt.node) if norm.call_name(c) in ("read_int", "read_pickle", "tell", "seek")]
     ctx.ob(gt, rorder == ["seek", "read_int", "read_pickle", "tell"], "block is read as seek, length, info pickle, data offset",
            detail=str(rorder))
-    # data tuple indices
+    # data tuple indices: the 3-tuple that is pickled into databytes
     dtuple = None
-    for st in ast.walk(wb.node):
-        if isinstance(st, ast.Assign) and norm.canon(st.targets[0]) == "data" and isinstance(st.value, ast.Tuple):
-            dtuple = [norm.canon(e) for e in st.value.elts]
+    for t_ in ast.walk(wb.node):
+        if isinstance(t_, ast.Tuple) and len(t_.elts) == 3 and all(isinstance(e, ast.Call) and norm.call_name(e).startswith("_mini_") for e in t_.elts):
+            dtuple = [norm.canon(e) for e in t_.elts]
     want = {"_read_ids": ("self._mini_ids()", 0), "_read_weights": ("self._mini_weights()", 1), "_read_values": ("self._mini_values()", 2)}
     ok = dtuple is not None and len(dtuple) == 3
+    dumped = [norm.deep_canon(c.args[0], wb.node) for c in norm.calls_in(wb.node) if norm.call_name(c) == "dumps" and c.args and c.args[0] is not wtuple]
+    ok = ok and dumped == ["(%s)" % ", ".join(dtuple or [])]
     detail = []
     for rn, (wexpr, idx) in want.items():
         rf = prog.method(W3 + "W3LeafMatcher", rn, inherited=False)
@@ -145,12 +164,30 @@ def c10_r1(ctx):
             v = norm.canon(n.ast.value) if n.ast.value is not None else "None"
             cases[v] = sorted(t for (p, t) in (fa.at(n) or []) if p == "T")
     al = norm.aliases(mw.node)
-    none_ok = "None" in cases and any(t.startswith("all((w == 1.0 for w in") or t.startswith("all((1.0 == w for w in") for t in cases["None"])
+    MW = pm.Alpha(mw)
+    none_ok = "None" in cases and any(MW.eq(norm.substitute(norm.parse_expr(t), al), "all(w == 1.0 for w in self._weights)") for t in cases["None"])
     scalar = [k for k in cases if k.endswith("[0]")]
-    scalar_ok = bool(scalar) and any(t.startswith("all(") and "[0]" in t for t in cases[scalar[0]])
+    MW2 = pm.Alpha(mw)
+    scalar_ok = len(scalar) == 1 and norm.canon(norm.parse_expr(scalar[0]), al) == "self._weights[0]" and \
+        any(MW2.eq(norm.substitute(norm.parse_expr(t), al), "all(w == self._weights[0] for w in self._weights)") for t in cases[scalar[0]])
     rw = prog.method(W3 + "W3LeafMatcher", "_read_weights", inherited=False)
-    rtxt = norm.stmt_text(rw.node)
-    reader_ok = "weights is None" in rtxt and "isinstance(weights, float)" in rtxt and "1.0 for _ in" in rtxt
+    RW = pm.Alpha(rw)
+    frw = guards.Facts(rw)
+    stores = []
+    RW.find(pm.stmts_of(rw.node), "weights = self._data[1]")
+    for n in frw.g.nodes:
+        a_ = n.ast
+        if n.kind == "stmt" and isinstance(a_, ast.Assign) and norm.canon(a_.targets[0]) == "self._weights":
+            facts = frw.at(n) or frozenset()
+            if RW.fact(facts, "T", "weights is None"):
+                stores.append("none" if isinstance(a_.value, ast.Call) and a_.value.args and isinstance(a_.value.args[-1], ast.GeneratorExp)
+                              and norm.canon(a_.value.args[-1].elt) == "1.0" else "none?")
+            elif RW.fact(facts, "T", "isinstance(weights, float)"):
+                stores.append("scalar" if isinstance(a_.value, ast.Call) and a_.value.args and isinstance(a_.value.args[-1], ast.GeneratorExp)
+                              and RW.eq(a_.value.args[-1].elt, "weights") else "scalar?")
+            else:
+                stores.append("array" if RW.eq(a_.value, "weights") else "array?")
+    reader_ok = sorted(stores) == ["array", "none", "scalar"]
     ctx.ob("W3PostingsWriter._mini_weights <-> W3LeafMatcher._read_weights", none_ok and scalar_ok and reader_ok,
            "weights collapse to None only if all are 1.0 and to a scalar only if all are equal; the reader expands None to 1.0 and a float to itself",
            detail="writer return cases and their guards: %s" % cases, loc=mw.loc)
@@ -203,13 +240,25 @@ def c10_r2(ctx):
             if k in t:
                 return "flags" if k == "inlined" else k
         return "?" + t
-    wroles = [role(norm.canon(a)) for a in pack[0].args]
+    wroles = [role(norm.deep_canon(a, tb.node)) for a in pack[0].args]
+    # the local holding the unpacked tuple
+    uvars = [n_ for n_, vals_ in norm.assigned_names(fb.node).items()
+             if any(v_ is not None and isinstance(v_, ast.Call) and norm.call_name(v_) == "unpack" for v_ in vals_)]
+    if len(uvars) != 1:
+        raise AnalysisError("from_bytes: expected one local bound to _struct.unpack(...)")
+    uvar = uvars[0]
+    # the flags local: the one tested to choose between inline postings and (offset, length)
+    fl = [st for st in ast.walk(fb.node) if isinstance(st, ast.If) and isinstance(st.test, ast.Name)
+          and any("_inlined" in norm.stmt_text(x) for x in st.body)]
+    flagvar = fl[0].test.id if len(fl) == 1 else None
     rroles = {}
     for st in ast.walk(fb.node):
         if isinstance(st, ast.Assign):
             tgt = norm.canon(st.targets[0])
+            if isinstance(st.targets[0], ast.Name):
+                tgt = "flags" if st.targets[0].id == flagvar else "?local " + tgt
             for n in ast.walk(st.value):
-                if isinstance(n, ast.Subscript) and norm.canon(n.value) == "vals" and isinstance(n.slice, ast.Constant):
+                if isinstance(n, ast.Subscript) and norm.canon(n.value) == uvar and isinstance(n.slice, ast.Constant):
                     rroles.setdefault(n.slice.value, set()).add(role(tgt))
     rlist = [sorted(rroles.get(i, {"?"}))[0] if len(rroles.get(i, [])) == 1 else "?" for i in range(len(chars))]
     ctx.ob(cls, len(wroles) == len(chars) and wroles == rlist, "to_bytes packs and from_bytes unpacks the same fields in struct order",
@@ -217,15 +266,15 @@ def c10_r2(ctx):
     # length bytes
     l2b = [norm.canon(c.args[0]) for c in norm.calls_in(tb.node) if norm.call_name(c) == "length_to_byte"]
     b2l = [norm.canon(c.args[0]) for c in norm.calls_in(fb.node) if norm.call_name(c) == "byte_to_length"]
-    ctx.ob(cls, len(l2b) == 2 and b2l == ["vals[3]", "vals[4]"] and wroles[3:5] == ["minlength", "maxlength"],
+    ctx.ob(cls, len(l2b) == 2 and b2l == ["%s[3]" % uvar, "%s[4]" % uvar] and wroles[3:5] == ["minlength", "maxlength"],
            "both length fields go through length_to_byte / byte_to_length", detail="%s / %s" % (l2b, b2l), loc=tb.loc)
     sent_w = norm.stmt_text(tb.node).count("4294967295")
     sent_r = norm.stmt_text(fb.node).count("4294967295")
     ctx.ob(cls, sent_w == 2 and sent_r == 2, "min/max id use the 0xffffffff 'none' sentinel on both sides", loc=tb.loc)
     # inline flag <-> branch
-    fl = [st for st in ast.walk(fb.node) if isinstance(st, ast.If) and norm.canon(st.test) == "flags"]
-    okf = bool(fl) and any("_inlined" in norm.stmt_text(x) for x in fl[0].body) and any("_offset" in norm.stmt_text(x) for x in fl[0].orelse)
-    wl = [st for st in ast.walk(tb.node) if isinstance(st, ast.If) and norm.canon(st.test) == "isinlined"]
+    okf = bool(fl) and flagvar is not None and any("_inlined" in norm.stmt_text(x) for x in fl[0].body) and \
+        any("_offset" in norm.stmt_text(x) for x in fl[0].orelse)
+    wl = [st for st in ast.walk(tb.node) if isinstance(st, ast.If) and norm.deep_canon(st.test, tb.node) == "self.is_inlined()"]
     okw = bool(wl) and any("_inlined" in norm.stmt_text(x) for x in wl[0].body) and any("_offset" in norm.stmt_text(x) for x in wl[0].orelse)
     ctx.ob(cls, okf and okw, "inlined flag selects inline postings vs (offset, length) identically when writing and reading", loc=fb.loc)
     # direct readers
